@@ -25,8 +25,8 @@ WORK = PREFIX + '/work'
 KERN_SUFFIXES = ['.krn', '.krn', '.kern']
 EKERN_SUFFIXES = ['.ekrn', '.ekern']
 LOCALES = ['utf-8', 'utf-8', 'utf-8', 'latin-1', 'cp1252', 'ascii']
-NAMES = ['a', 'b', 'score', 'x.y', 'op.1.no.2', 'Ü', 'my score', '.hidden', 'c']
-DIRS = ['', 'in', 'in/sub', 'in/sub/deep', 'data', 'in/other', 'in/.drafts']
+NAMES = ['a', 'b', 'score', 'x.y', 'op.1.no.2', 'Ü', 'my score', '.hidden', 'c', 'a[1]', 'st*r', 'wh?t', '']
+DIRS = ['', 'in', 'in/sub', 'in/sub/deep', 'data', 'in/other', 'in/.drafts', 'in/take [2]']
 
 
 def universal(text: str) -> str:
@@ -64,7 +64,7 @@ class C20:
               'listing_order_non_sorted', 'locale_cannot_encode', 'relative_path_via_virtual_cwd', 'roundtrip_checked', 'actor_unlink',
               'interrupt_delivered', 'load_equal_checked', 'dump_equal_checked', 'converter_equal_checked', 'bom_input', 'crlf_input',
               'flipped_byte_input', 'rerun_after_fault_exact', 'edited_in_place_same_size', 'big_input_over_24k', 'output_is_the_input_file', 'blank_line_in_input', 'dumped_a_loaded_document', 'output_directory_removed_externally',
-              'non_nfc_input', 'stdout_cannot_encode_progress_line']
+              'non_nfc_input', 'stdout_cannot_encode_progress_line', 'header_only_input', 'input_of_exactly_one_buffer']
 
     # ================================================================ plan
     def gen_plan(self, seed, index, tier):
@@ -102,7 +102,7 @@ class C20:
             if stem_key in used:
                 continue        # two inputs with one stem in one directory would convert onto the same output file
             used.add(stem_key)
-            kind = seeds.weighted(rng, [('kern', 8), ('garbage', 0.7), ('with_error', 0.9), ('empty', 0.3), ('big', 0.5)])
+            kind = seeds.weighted(rng, [('kern', 8), ('garbage', 0.7), ('with_error', 0.9), ('empty', 0.3), ('big', 0.5), ('block_edge', 0.5), ('header_only', 0.3)])
             di = rng.randrange(ndocs)
             eol = seeds.weighted(rng, [('\n', 5), ('\r\n', 3), ('mixed', 1), ('\r', 0.7)])
             op = {'op': 'put', 'path': path, 'doc': di, 'kind': kind, 'eol': eol, 'final_newline': rng.random() < 0.75, 'bom': rng.random() < 0.06,
@@ -219,7 +219,7 @@ class C20:
         # (session 3) two more environment dimensions, drawn last from the env stream so that everything above is unchanged:
         #  - the encoding of the process's stdout (a terminal or pipe under LANG=C cannot take the arrow of the progress line);
         #  - input files whose non-ASCII text is NOT in Unicode normal form C (decomposed accents, Angstrom/Ohm signs).
-        env2 = {'stdout': 'utf-8' if erng.random() < 0.85 else erng.choice(['ascii', 'latin-1']), 'nonnfc_inputs': erng.random() < 0.15,
+        env2 = {'stdout': 'utf-8' if erng.random() < 0.85 else erng.choice(['ascii', 'latin-1', 'ascii', 'closed']), 'nonnfc_inputs': erng.random() < 0.15,
                 'logging': 'DEBUG' if erng.random() < 0.08 else 'default'}
         return {'property': self.PROPERTY, 'config': 'fault_injecting' if faulty else 'fault_free', 'class': klass, 'fs': fsplan, 'cwd': cwd,
                 'docs': docs, 'ops': ops, 'env2': env2}
@@ -281,6 +281,7 @@ class C20:
         locale = plan['fs'].get('locale', 'utf-8')
         stdout_enc = (plan.get('env2') or {}).get('stdout', 'utf-8')
         self._stdout_narrow = stdout_enc != 'utf-8'
+        self._stdout_enc = stdout_enc
         docs = [docgen.Doc.from_json(d) for d in plan['docs']]
         CAT = kp.TokenCategory
         ENC = {'kern': kp.Encoding.normalizedKern, 'ekern': kp.Encoding.eKern, 'bkern': kp.Encoding.bKern, 'bekern': kp.Encoding.bEkern,
@@ -306,6 +307,21 @@ class C20:
                 text = 'this is not\ta kern file\nat all\tx\ty\n'
             else:
                 lines = d.lines()
+                if op['kind'] == 'header_only':
+                    # boundary: nothing but the header row (and, for every second path length, the terminators)
+                    lines = lines[:1] + (['\t'.join('*-' for _ in d.headers)] if len(op['path']) % 2 else [])
+                    bump(probes, 'header_only_input')
+                if op['kind'] == 'block_edge':
+                    # boundary: the file is exactly one I/O buffer (8192 bytes), one byte less or one byte more; the padding record
+                    # ends in a multi-byte character so that the buffer edge falls next to or inside it
+                    want = 8192 + (len(op['path']) % 3 - 1)
+                    eolb = 2 if op['eol'] == '\r\n' else 1
+                    base = sum(len(l.encode('utf-8')) + eolb for l in lines) - (0 if op['final_newline'] else eolb)
+                    head = '!!!OTL@@pad: '
+                    fill = want - base - len(head.encode('utf-8')) - eolb - len('歌'.encode('utf-8'))
+                    if fill > 0 and op['eol'] != 'mixed' and not op.get('blank') and not op.get('bom'):
+                        lines = lines + [head + 'x' * fill + '歌']
+                        bump(probes, 'input_of_exactly_one_buffer')
                 if op['kind'] == 'big':
                     # a file of several I/O blocks (> 3 x 8 KiB) whose padding is made of multi-byte characters, so that block
                     # boundaries of any reader fall inside characters: reference records before the header and after the end
@@ -313,7 +329,7 @@ class C20:
                     cut = max(1, len(pad) * (op['path'].__len__() % 5 + 1) // 6)
                     lines = pad[:cut] + lines + pad[cut:]
                     bump(probes, 'big_input_over_24k')
-                if (plan.get('env2') or {}).get('nonnfc_inputs'):
+                if (plan.get('env2') or {}).get('nonnfc_inputs') and op['kind'] in ('kern', 'with_error', 'big'):
                     # non-NFC text in a reference record and, if there is a lyrics spine, appended to its first lyric
                     lines = ['!!!COM: Ange\u0301lique A\u030astro\u0308m \u212b\u2126'] + lines
                     done = False
@@ -450,7 +466,9 @@ class C20:
             # the real command-line contract: `python -m kernpy <args>`, in process (runpy executes kernpy/__main__.py as __main__)
             import runpy
             out, err = io.StringIO(), io.StringIO()
-            if stdout_enc != 'utf-8':
+            if stdout_enc == 'closed':
+                out.close()         # a daemon's or a finished pipe's stdout: every print raises ValueError
+            elif stdout_enc != 'utf-8':
                 # what sys.stdout is under LANG=C or on a legacy console: a strict text layer over bytes
                 out = io.TextIOWrapper(io.BytesIO(), encoding=stdout_enc, errors='strict', write_through=True)
             old_argv = sys.argv
@@ -467,7 +485,8 @@ class C20:
                         status = 'raised ' + type(ex).__name__
             finally:
                 sys.argv = old_argv
-            return status, (out.getvalue() if isinstance(out, io.StringIO) else out.buffer.getvalue().decode(stdout_enc, 'replace')), err.getvalue()
+            so = '' if stdout_enc == 'closed' else out.getvalue() if isinstance(out, io.StringIO) else out.buffer.getvalue().decode(stdout_enc, 'replace')
+            return status, so, err.getvalue()
 
         def check_target(opname, target, expected_text, returned_normally, faulted, what):
             """After an operation that should have written ``expected_text`` to ``target``."""
@@ -729,7 +748,8 @@ class C20:
             log.emit('client', 'cli-single', argv, status)
             ref = ref_fn(data)
             got = 'returned' if status == 'returned' else status
-            if self._stdout_narrow and op['verbose'] and status == 'raised UnicodeEncodeError' and ref[0] == 'ok' and encode_or_none(ref[1]) is not None:
+            if self._stdout_narrow and op['verbose'] and status in ('raised UnicodeEncodeError', 'raised ValueError') and ref[0] == 'ok' and \
+                    encode_or_none(ref[1]) is not None and (status == 'raised ValueError') == (self._stdout_enc == 'closed'):
                 # the only thing that cannot be encoded is the progress line on a narrow stdout: the conversion itself is not
                 # excused - the output file must be there and exact (the unchanged tree converts first and reports afterwards)
                 got = 'returned'
@@ -791,7 +811,7 @@ class C20:
                 continue
             if status == 'returned' or not faulted:
                 reported = p in reported_paths
-                if reported and self._stdout_narrow and op['verbose'] and not faulted and encode_or_none(ref[1]) is not None and 'codec can' in se:
+                if reported and self._stdout_narrow and op['verbose'] and not faulted and encode_or_none(ref[1]) is not None and ('codec can' in se or 'closed file' in se):
                     # reported only because the progress line did not fit the narrow stdout: the file must be there and exact
                     reported = False
                     bump(probes, 'stdout_cannot_encode_progress_line')
